@@ -110,6 +110,23 @@ class Key:
         return self.q < other.q
 
 
+USER = [
+    ['type', 'NG', 'g0', None],
+    ['unit', 'NG', 'gneg', ['scaled', 'F:-1/4', 'g0']],      # negative scale
+    ['unit', 'NG', 'kgneg', ['scaled', 'i:1000', 'gneg']],
+    ['unit', 'NG', 'g2', ['scaled', 'i:2', 'g0']],
+    ['unit', 'NG', 'g2b', ['term', [['D:0.5', 1], ['g0', 1], ['i:4', 1]]]],
+    ['unit', 'NG', 'g1b', ['scaled', 'i:1', 'g0']],          # equal scales
+]
+
+
+def make_world():
+    w = World(catalogue=True)
+    for ev in USER:
+        w.must(ev)
+    return w
+
+
 def values_for(w, tname, s1, s2, base):
     """amounts for s2 that are equal / near-equal to base*s1"""
     eq = base * w.um[s1].scale / w.um[s2].scale
@@ -119,7 +136,7 @@ def values_for(w, tname, s1, s2, base):
 def part(p, amts):
     tname, s1 = p
     st = Stats()
-    w = World(catalogue=True)
+    w = make_world()
     tm = w.tm[tname]
     if tm.quantum is not None:
         grid = True
@@ -152,7 +169,7 @@ def part(p, amts):
 def part_sorted(p):
     tname = p
     st = Stats()
-    w = World(catalogue=True)
+    w = make_world()
     syms = w.tm[tname].units
     a, b, c = syms[0], syms[len(syms) // 2], syms[-1]
     sa, sb, sc = (w.um[s].scale for s in (a, b, c))
@@ -173,7 +190,7 @@ def part_sorted(p):
 
 
 def replay(case):
-    w = World(catalogue=True)
+    w = make_world()
     if 'cmp' in case:
         t, s1, x1, r1, s2, x2, r2 = case['cmp']
         return run_cmp(w, t, s1, F(x1), r1, s2, F(x2), r2)
@@ -192,17 +209,20 @@ def run(tier, seed):
     amts = [a for a in amts if a != 'F:1/2']
     parts = [(t, s) for t in O.LINEAR_TYPES if O.CATALOGUE[t][2] is None
              for s in O.CATALOGUE[t][3]]
-    total.merge(pmap(part, parts, (amts,)))
+    parts += [('NG', ev[2]) for ev in USER]
+    total.merge(pmap(part, parts, (amts,), fresh=True))
     total.merge(pmap(part_sorted, [t for t in O.LINEAR_TYPES
                                    if O.CATALOGUE[t][2] is None
-                                   and len(O.CATALOGUE[t][3]) >= 2]))
+                                   and len(O.CATALOGUE[t][3]) >= 2] + ['NG'],
+                     fresh=True))
     total.sample({'cmp': ['Length', 'mi', '1', 'D', 'in', '63360', 'F'],
                   'meaning': '1 mi vs 63360 in (equal), all six operators'})
     total.sample({'cmp': ['Length', 'mi', '1', 'D', 'in',
                           str(F(63360) + EPS), 'F'], 'meaning': 'near tie'})
     total.extra['amount_alphabet'] = amts
     return total, dict(
-        rule="per non-quantized linear type: all ordered unit pairs x amount "
+        rule="per non-quantized linear type (13 predefined and a user type "
+             "with negative, equal and scale-1 alias units): all ordered unit pairs x amount "
              "alphabet x {6 alphabet amounts, the exactly equal partner "
              "a*s(u)/s(v), and its neighbours +-1e-12} x {Decimal, Fraction}"
              "^2 x six operators + trichotomy; unit ordering for all unit "
